@@ -48,7 +48,7 @@ import hippolyzer.lib.base.mesh as mesh
 import hippolyzer.lib.base.serialization as se
 import hippolyzer.lib.base.templates as templates
 
-from hmc import objwalk
+from hmc import introspect, objwalk
 from hmc.core import HarnessError, Part, Run, pmap
 
 LEVEL = "exploration"
@@ -86,43 +86,188 @@ class Inst:
         self.n = 0
 
 
-def _fmt_of(prim) -> Optional[str]:
-    fmt = getattr(prim, "_struct_fmt", None)
-    return fmt[-1:] if isinstance(fmt, str) else None
+_FMT_BY_SHAPE = {(1, False): "B", (1, True): "b", (2, False): "H", (2, True): "h"}
+_IFACE = ("__init__", "encode", "decode", "default_value")  # the Adapter interface; overriding these is not "own arithmetic"
+
+
+def _is_prim(v) -> bool:
+    return isinstance(v, se.SerializablePrimitive)
 
 
 def _is_target(o) -> bool:
     return isinstance(o, (se.QuantizedFloatBase, se.FixedPoint, se.QuantizedNumPyArray, se.EncodedTupleCoord))
 
 
-def _own_step(o) -> bool:
-    """The class overrides the quantisation arithmetic itself (not merely where the range comes from)."""
-    t = type(o)
-    return (t._float_to_quantized is not se.QuantizedFloatBase._float_to_quantized
-            or t._quantized_to_float is not se.QuantizedFloatBase._quantized_to_float)
+def _fmt_of(prim) -> Optional[str]:
+    """struct format character of an integer wire primitive, from its public shape (size, signedness)."""
+    if prim is None:
+        return None
+    try:
+        size = prim.calc_size()
+        signed = introspect.resolve(prim, ("is_signed",), lambda v: isinstance(v, bool), None, "SerializablePrimitive.is_signed")
+        if signed is None:
+            signed = prim.min_val < 0
+        if not isinstance(prim.max_val, int):
+            return None
+        fmt = _FMT_BY_SHAPE.get((size, bool(signed)))
+        if fmt is None:
+            return f"{size}-byte {'signed' if signed else 'unsigned'}"
+        return fmt
+    except Exception:
+        return None
+
+
+def _read_one(o, fmt: str, raw: int, ctx=None, pod=False):
+    return se.BufferReader("<", struct.pack("<" + fmt, raw), pod).read(o, ctx=ctx)
+
+
+def _probe_fmt(o, ctx=None) -> Optional[str]:
+    """Wire type from behaviour alone: width from the public calc_size(), signedness from whether the bit pattern 0x80..
+    reads below 0x7F.. (decoders are monotonic in the *typed* raw value)."""
+    try:
+        size = o.calc_size()
+        if size not in (1, 2):
+            return f"{size}-byte" if size else None
+        ufmt = "B" if size == 1 else "H"
+        top, below = (0x80, 0x7F) if size == 1 else (0x8000, 0x7FFF)
+        signed = _read_one(o, ufmt, top, ctx) < _read_one(o, ufmt, below, ctx)
+        return _FMT_BY_SHAPE[(size, bool(signed))]
+    except Exception:
+        return None
+
+
+_PARAMS: Dict[int, dict] = {}
+
+
+def params(o) -> dict:
+    """Everything the sweeps need to know about one library object, read through hmc.introspect (known private name ->
+    search by type among the object's members -> derived from behaviour).  ``fallbacks`` lists what was not read by name."""
+    got = _PARAMS.get(id(o))
+    if got is not None and got["obj"] is o:
+        return got
+    before = dict(introspect.FALLBACKS)
+    p: Dict[str, Any] = {"obj": o, "cls": type(o).__name__}
+    if isinstance(o, se.QuantizedFloatBase):
+        prim = introspect.resolve(o, ("_child_spec",), _is_prim, None, "QuantizedFloatBase._child_spec")
+        fmt = _fmt_of(prim)
+        root, ctx = _make_ctx(1.0)
+        needs_ctx = False
+        if not isinstance(o, se.QuantizedFloat):
+            try:
+                o.decode(0, None)
+            except Exception:
+                needs_ctx = True
+        if fmt is None:
+            fmt = _probe_fmt(o, ctx if needs_ctx else None)
+        p.update(kind="qctx" if needs_ctx else "qfloat", fmt=fmt)
+        p["own"] = bool(introspect.overrides(type(o), se.QuantizedFloatBase, _IFACE))
+        num = lambda v: isinstance(v, (int, float)) and not isinstance(v, bool)  # noqa: E731
+        lower = upper = None
+        if not needs_ctx:
+            lower = introspect.resolve(o, ("lower",), num, None, "QuantizedFloat.lower")
+            upper = introspect.resolve(o, ("upper",), num, None, "QuantizedFloat.upper")
+        zm = introspect.resolve(o, ("zero_median",), lambda v: isinstance(v, bool), None, "QuantizedFloatBase.zero_median")
+        step = introspect.resolve(o, ("step_mag",), num, None, "QuantizedFloatBase.step_mag")
+        p["derived"] = []
+        if fmt in WIRE and not needs_ctx and (lower is None or upper is None or zm is None):
+            lo_raw, hi_raw = WIRE[fmt][1], WIRE[fmt][2]
+            try:
+                if lower is None:
+                    lower = o.decode(lo_raw, None)
+                    p["derived"].append("lower")
+                if upper is None:
+                    upper = o.decode(hi_raw, None)
+                    p["derived"].append("upper")
+                if zm is None:
+                    zm = sum(1 for r in range(lo_raw, hi_raw + 1) if o.decode(r, None) == 0.0) >= 2
+                    p["derived"].append("zero_median")
+            except Exception:
+                pass
+        elif zm is None:
+            zm = False
+            p["derived"].append("zero_median")
+        p.update(lower=None if lower is None else float(lower), upper=None if upper is None else float(upper),
+                 zero_median=bool(zm), step=None if step is None else float(step))
+        del root
+    elif isinstance(o, se.FixedPoint):
+        prim = introspect.resolve(o, ("_ser_spec",), _is_prim, None, "FixedPoint._ser_spec")
+        fmt = _fmt_of(prim) or _probe_fmt(o)
+        frac = introspect.resolve(o, ("_frac_bits",), None, None, "FixedPoint._frac_bits")
+        signed = introspect.resolve(o, ("_signed",), None, None, "FixedPoint._signed")
+        p["derived"] = []
+        if fmt in WIRE and (not isinstance(frac, int) or signed is None):
+            try:
+                lo_raw = WIRE[fmt][1]
+                d0, d1 = _read_one(o, fmt, lo_raw), _read_one(o, fmt, lo_raw + 1)
+                if not isinstance(frac, int):
+                    frac = int(round(-math.log2(d1 - d0)))
+                    p["derived"].append("frac_bits")
+                if signed is None:
+                    signed = d0 < 0
+                    p["derived"].append("signed")
+            except Exception:
+                pass
+        p.update(kind="fixed", fmt=fmt, frac=frac if isinstance(frac, int) else None, signed=bool(signed))
+    elif isinstance(o, se.QuantizedNumPyArray):
+        dt = introspect.resolve(o, ("dtype",), lambda v: isinstance(v, np.dtype), None, "QuantizedNumPyArray.dtype")
+        child = introspect.resolve(o, ("_child_spec",), lambda v: isinstance(v, se.NumPyArray), None, "QuantizedNumPyArray._child_spec")
+        if dt is None and child is not None:
+            dt = introspect.resolve(child, ("dtype",), lambda v: isinstance(v, np.dtype), None, "NumPyArray.dtype")
+        elems = introspect.resolve(child, ("elems",), lambda v: isinstance(v, int) and 0 < v < 64, None, "NumPyArray.elems") if child is not None else None
+        num = lambda v: isinstance(v, (int, float)) and not isinstance(v, bool)  # noqa: E731
+        lower = introspect.resolve(o, ("lower",), num, None, "QuantizedNumPyArray.lower")
+        upper = introspect.resolve(o, ("upper",), num, None, "QuantizedNumPyArray.upper")
+        step = introspect.resolve(o, ("step_mag",), num, None, "QuantizedNumPyArray.step_mag")
+        p["derived"] = []
+        if dt is not None and (lower is None or upper is None) and (np.dtype(dt).kind, np.dtype(dt).itemsize) in NP_WIRE:
+            _, lo_raw, hi_raw = NP_WIRE[(np.dtype(dt).kind, np.dtype(dt).itemsize)]
+            try:
+                ends = np.asarray(o.decode(np.array([lo_raw, hi_raw]).astype(dt), None))
+                if lower is None:
+                    lower = float(ends[0])
+                    p["derived"].append("lower")
+                if upper is None:
+                    upper = float(ends[1])
+                    p["derived"].append("upper")
+            except Exception:
+                pass
+        p.update(kind="qnp", dtype=None if dt is None else np.dtype(dt), elems=elems or 12,
+                 lower=None if lower is None else float(lower), upper=None if upper is None else float(upper),
+                 step=None if step is None else float(step))
+    else:  # EncodedTupleCoord
+        elems = introspect.resolve(o, ("_elem_specs",),
+                                   lambda v: isinstance(v, (tuple, list)) and len(v) > 0 and all(_is_target(e) for e in v),
+                                   (), "EncodedTupleCoord._elem_specs")
+        p.update(kind="tuple", elems=tuple(elems or ()), derived=[])
+    p["fallbacks"] = sorted(k for k, n in introspect.FALLBACKS.items() if n != before.get(k, 0))
+    _PARAMS[id(o)] = p
+    return p
 
 
 def describe(o) -> tuple:
     """(kind, ident tuple, default site string)"""
-    if isinstance(o, se.QuantizedFloatBase):
-        fmt = _fmt_of(o._child_spec)
+    p = params(o)
+    cls = p["cls"]
+    if p["kind"] in ("qfloat", "qctx"):
+        fmt = p["fmt"]
         wname = WIRE.get(fmt, (f"fmt:{fmt}",))[0]
-        cls = type(o).__name__
-        if hasattr(o, "lower") and hasattr(o, "upper"):
-            ident = ("qfloat", cls, fmt, float(o.lower), float(o.upper), bool(o.zero_median), float(o.step_mag))
-            return "qfloat", ident, f"{cls}({wname},{float(o.lower)!r},{float(o.upper)!r},zero_median={bool(o.zero_median)})"
-        ident = ("qctx", cls, fmt, bool(o.zero_median), float(o.step_mag))
+        if p["kind"] == "qfloat":
+            ident = ("qfloat", cls, fmt, p["lower"], p["upper"], p["zero_median"], p["step"], p["own"])
+            return "qfloat", ident, f"{cls}({wname},{p['lower']!r},{p['upper']!r},zero_median={p['zero_median']})"
+        ident = ("qctx", cls, fmt, p["zero_median"], p["step"])
         return "qctx", ident, f"{cls}({wname})"
-    if isinstance(o, se.FixedPoint):
-        fmt = _fmt_of(o._ser_spec)
+    if p["kind"] == "fixed":
+        fmt = p["fmt"]
         wname = WIRE.get(fmt, (f"fmt:{fmt}",))[0]
-        bits = o._ser_spec.calc_size() * 8
-        int_bits = bits - o._frac_bits - int(bool(o._signed))
-        ident = ("fixed", fmt, int(o._frac_bits), bool(o._signed), o._min_val, o._max_val)
-        return "fixed", ident, f"FixedPoint({wname},{int_bits}.{o._frac_bits},{'signed' if o._signed else 'unsigned'})"
-    dt = np.dtype(o.dtype)
-    ident = ("qnp", dt.str, float(o.lower), float(o.upper), float(o.step_mag))
-    return "qnp", ident, f"QuantizedNumPyArray({dt.str},{float(o.lower)!r},{float(o.upper)!r})"
+        bits = struct.calcsize(fmt) * 8 if fmt in WIRE else 0
+        frac, signed = p["frac"], p["signed"]
+        int_bits = bits - (frac or 0) - int(signed)
+        ident = ("fixed", fmt, frac, signed)
+        return "fixed", ident, f"FixedPoint({wname},{int_bits}.{frac},{'signed' if signed else 'unsigned'})"
+    dt = p["dtype"]
+    dstr = dt.str if dt is not None else "?"
+    ident = ("qnp", dstr, p["lower"], p["upper"], p["step"])
+    return "qnp", ident, f"QuantizedNumPyArray({dstr},{p['lower']!r},{p['upper']!r})"
 
 
 def discover() -> List[Inst]:
@@ -159,7 +304,7 @@ def discover() -> List[Inst]:
     site_of = {i.ident: i.site for i in insts}
     by_w: Dict[tuple, Inst] = {}
     for path, o in wrappers:
-        elems = tuple(getattr(o, "_elem_specs", ()) or ())
+        elems = params(o)["elems"]
         if not elems or not all(_is_target(e) and not isinstance(e, se.EncodedTupleCoord) for e in elems):
             continue
         eids = tuple(describe(e)[1] for e in elems)
@@ -189,15 +334,16 @@ def eval_scalar(part, inst: Inst, duration: Optional[float] = None, wire: bool =
     """One full sweep of a QuantizedFloatBase instance (optionally under a duration context) in one reader mode."""
     o = inst.obj
     site = inst.site
-    fmt = _fmt_of(o._child_spec)
+    P = params(o)
+    fmt = P["fmt"]
     wname, lo_raw, hi_raw = WIRE[fmt]
     root = ctx = None
     if inst.kind == "qctx":
         root, ctx = _make_ctx(duration)
         lower, upper = 0.0, duration
     else:
-        lower, upper = float(o.lower), float(o.upper)
-    own = _own_step(o)
+        lower, upper = P["lower"], P["upper"]
+    own = P["own"]
 
     def wit(raw, path="direct"):
         w = {"site": site, "raw": raw, "path": path}
@@ -306,10 +452,11 @@ def eval_scalar(part, inst: Inst, duration: Optional[float] = None, wire: bool =
 def eval_fixed(part, inst: Inst, pod: bool = False):
     o = inst.obj
     site = inst.site
-    fmt = _fmt_of(o._ser_spec)
+    P = params(o)
+    fmt = P["fmt"]
     wname, lo_raw, hi_raw = WIRE[fmt]
     bits = struct.calcsize(fmt) * 8
-    frac, signed = int(o._frac_bits), bool(o._signed)
+    frac, signed = int(P["frac"] or 0), bool(P["signed"])
     int_bits = bits - frac - int(signed)
     exp_min = -float(2 ** int_bits) if signed else 0.0
     exp_max = exp_min + (2 ** bits - 1) / float(2 ** frac)
@@ -362,9 +509,10 @@ def eval_fixed(part, inst: Inst, pod: bool = False):
 def eval_numpy(part, inst: Inst, pod: bool = False):
     o = inst.obj
     site = inst.site
-    dt = np.dtype(o.dtype)
+    P = params(o)
+    dt = P["dtype"]
     wname, lo_raw, hi_raw = NP_WIRE[(dt.kind, dt.itemsize)]
-    lower, upper = float(o.lower), float(o.upper)
+    lower, upper = P["lower"], P["upper"]
     n = hi_raw - lo_raw + 1
     raws = np.arange(lo_raw, hi_raw + 1, dtype=np.int64)
     arr = raws.astype(dt)
@@ -410,8 +558,7 @@ def eval_numpy(part, inst: Inst, pod: bool = False):
                 if r not in zeros:
                     part.violation("zero-exact", site, wit(zeros[0]), f"encode({z!r}) = {r}, but the raw values decoding to 0.0 are {zeros}")
     # wire path through the child NumPyArray spec (rows of `elems` components; pad the tail row with the minimum raw value)
-    child = o._child_spec
-    elems = int(getattr(child, "elems", 1))
+    elems = int(P["elems"])
     pad = (-n) % elems
     for endian in ("<",):  # the dtype carries its own byte order
         data = np.concatenate([arr, np.full(pad, lo_raw, dtype=dt)]).tobytes()
@@ -475,7 +622,7 @@ class ModePart:
 
 
 def _elem_fmt(e) -> Optional[str]:
-    return _fmt_of(e._ser_spec if isinstance(e, se.FixedPoint) else e._child_spec)
+    return params(e).get("fmt")
 
 
 def eval_tuple(part, inst: Inst, pod: bool = False, endians=("<",)):
@@ -483,7 +630,7 @@ def eval_tuple(part, inst: Inst, pod: bool = False, endians=("<",)):
     otherwise) and written back.  A failure that the offending element shows on its own in the same mode is the element's."""
     o = inst.obj
     site = inst.site
-    elems = tuple(o._elem_specs)
+    elems = params(o)["elems"]
     fmts = [_elem_fmt(e) for e in elems]
     fmt = fmts[0]
     wname, lo_raw, hi_raw = WIRE[fmt]
@@ -565,15 +712,21 @@ _THOROUGH = False
 def _supported(inst: Inst) -> Optional[str]:
     """None if the wire type can be swept exhaustively, else the reason."""
     if inst.kind in ("qfloat", "qctx"):
-        fmt = _fmt_of(inst.obj._child_spec)
+        fmt = params(inst.obj)["fmt"]
         return None if fmt in WIRE else f"wire format {fmt!r} is not an 8/16-bit integer"
     if inst.kind == "fixed":
-        fmt = _fmt_of(inst.obj._ser_spec)
+        fmt = params(inst.obj)["fmt"]
+        if fmt in WIRE and params(inst.obj)["frac"] is None:
+            return "fraction bits could neither be read nor derived"
         return None if fmt in WIRE else f"wire format {fmt!r} is not an 8/16-bit integer"
     if inst.kind == "tuple":
-        fmts = {_elem_fmt(e) for e in inst.obj._elem_specs}
+        fmts = {_elem_fmt(e) for e in params(inst.obj)["elems"]}
         return None if len(fmts) == 1 and fmts <= set(WIRE) else f"element wire formats {sorted(map(repr, fmts))} not one 8/16-bit integer"
-    dt = np.dtype(inst.obj.dtype)
+    dt = params(inst.obj)["dtype"]
+    if dt is None:
+        return "dtype could not be resolved"
+    if params(inst.obj)["lower"] is None or params(inst.obj)["upper"] is None:
+        return "range could neither be read nor derived"
     return None if (dt.kind, dt.itemsize) in NP_WIRE else f"dtype {dt.str} is not an 8/16-bit integer"
 
 
@@ -604,7 +757,7 @@ def _probe_ctx(inst: Inst) -> Optional[str]:
     """Can the context-dependent quantiser be driven with a root object exposing `duration`?"""
     root, ctx = _make_ctx(1.0)
     try:
-        lo = WIRE[_fmt_of(inst.obj._child_spec)][1]
+        lo = WIRE[params(inst.obj)["fmt"]][1]
         inst.obj.decode(lo, ctx)
         return None
     except (AttributeError, KeyError, TypeError) as e:
@@ -664,6 +817,14 @@ def run(run: Run):
         "attributed to the base site only, pod-specific failures are reported under '<site>:pod'",
         "vector wrappers are driven with the same raw value in every component; PackedQuat / template-level containers are C09's subject",
     ]
+    fb_sites = {i.site: sorted(set(params(i.obj)["fallbacks"]) | {"derived:" + d for d in params(i.obj).get("derived", [])})
+                for i in _INSTS if params(i.obj)["fallbacks"] or params(i.obj).get("derived")}
+    run.count("introspection_fallbacks", sum(introspect.FALLBACKS.values()))
+    run.coverage_extra["introspection_fallbacks"] = {"total": sum(introspect.FALLBACKS.values()), "by_attribute": dict(sorted(introspect.FALLBACKS.items())),
+                                                     "sites_using_fallbacks": fb_sites}
+    if fb_sites:
+        run.notes.append(f"{len(fb_sites)} sites were identified through introspection fallbacks (renamed private attributes); parameters "
+                         "derived from behaviour make the endpoint clause vacuous for those parameters")
     run.coverage_extra.update({"instances_found": sum(i.n for i in scal), "distinct_parameterisations": len(scal),
                                "wrapper_instances_found": sum(i.n for i in wrap), "distinct_wrappers": len(wrap),
                                "sites": listing, "durations": len(durs), "units": len(units),
